@@ -116,6 +116,9 @@ func c13(c *Ctx) {
 	c.Has(pop, StoreAs("$r.prioritizeIncremental = !$r.prioritizeIncremental"))
 	c.Count(pop, Stores("http2.priorityWriteSchedulerRFC9218.prioritizeIncremental"), 1, 1)
 	c.Before(pop, Stores("http2.priorityWriteSchedulerRFC9218.prioritizeIncremental"), Calls("(*http2.writeQueue).consume"))
+	// the class toggle belongs to Pops that serve a stream queue: a Pop answered from the control queue must not flip it
+	// (control frames interleaved one-for-one with stream frames would otherwise pin the same class for ever)
+	c.Guard(pop, Stores("http2.priorityWriteSchedulerRFC9218.prioritizeIncremental"), "empty(&$r.control)")
 	c.WritersNoEscape("http2.priorityWriteSchedulerRFC9218.prioritizeIncremental", pop)
 	c.ElemWriters("http2.priorityWriteSchedulerRFC9218.heads", open, closeFn, adjust, pop)
 	popStructure(c, pop)
@@ -371,62 +374,58 @@ func popStructure(c *Ctx, pop string) {
 	}
 	c.Check(exit, rule, pop+": ring walk ends when the cursor's successor is the ring head", pos, "", "no loop test compares cursor.next with heads[u][i]")
 	// head update after serving
-	var adv, stay []ssa.Instruction
-	for _, b := range fn.Blocks {
-		for _, in := range b.Instrs {
-			st, ok := in.(*ssa.Store)
-			if !ok {
-				continue
-			}
-			ia, ok := st.Addr.(*ssa.IndexAddr)
-			if !ok {
-				continue
-			}
-			isCell := false
-			for _, cl := range cells {
-				if cl.inner == ia {
-					isCell = true
+	// The head cell may be assigned in each branch (if i == 1 { head = q.next } else { head = q }) or once from a
+	// conditionally initialised local (h := q; if i == 1 { h = q.next }; head = h). Both are the same set of
+	// (value, branch facts) leaves: a stored merge is expanded per incoming edge with the facts of that edge.
+	cellStores := Sel{Name: "store to a heads cell", F: func(p *Prog, f *ssa.Function) []ssa.Instruction {
+		var out []ssa.Instruction
+		for _, b := range f.Blocks {
+			for _, in := range b.Instrs {
+				st, ok := in.(*ssa.Store)
+				if !ok {
+					continue
+				}
+				ia, ok := st.Addr.(*ssa.IndexAddr)
+				if !ok {
+					continue
+				}
+				for _, cl := range cells {
+					if cl.inner == ia {
+						out = append(out, in)
+						break
+					}
 				}
 			}
-			if !isCell {
-				continue
-			}
-			switch {
-			case isNext(st.Val):
-				adv = append(adv, in)
-			case st.Val == ssa.Value(cur):
-				stay = append(stay, in)
-			default:
-				c.Fail(rule, pop+": head update after serving", InstrPos(in), "heads cell is set to `"+Term(st.Val)+"`")
-				return
-			}
+		}
+		return out
+	}}
+	var adv, stay []StoreLeaf
+	for _, l := range HsStoreLeaves(c.P, fn, cellStores, func(v ssa.Value) bool { return v == ssa.Value(cur) }) {
+		switch {
+		case isNext(l.Val):
+			adv = append(adv, l)
+		case l.Val == ssa.Value(cur):
+			stay = append(stay, l)
+		default:
+			c.Fail(rule, pop+": head update after serving", InstrPos(l.Store), "heads cell is set to `"+Term(l.Val)+"`")
+			return
 		}
 	}
 	if len(adv) != 1 {
 		c.Fail(rule, pop+": head update after serving", pos, fmt.Sprintf("%d store(s) advance a ring head to the served queue's successor (expected 1)", len(adv)))
 		return
 	}
-	// the advancing store is guarded by i == 1, the staying one (if present) by i != 1
-	iTerm := Term(adv[0].(*ssa.Store).Addr.(*ssa.IndexAddr).Index)
+	// the advancing value is written under i == 1, the staying one (if present) under i != 1
+	iTerm := Term(adv[0].Store.(*ssa.Store).Addr.(*ssa.IndexAddr).Index)
 	one, _ := c.P.ParseAtom(iTerm + " == 1")
-	okAdv := false
-	for _, f := range FactsAtInstr(adv[0]) {
-		if SameAtom(f.Atom, one) {
-			okAdv = true
-		}
-	}
+	okAdv := HsHolds(adv[0].Facts, one, true)
 	okStay := true
 	for _, s := range stay {
-		good := false
-		for _, f := range FactsAtInstr(s) {
-			if SameAtom(f.Atom, one.Negate()) {
-				good = true
-			}
-		}
-		okStay = okStay && good
+		sone, _ := c.P.ParseAtom(Term(s.Store.(*ssa.Store).Addr.(*ssa.IndexAddr).Index) + " == 1")
+		okStay = okStay && HsHolds(s.Facts, sone.Negate(), true)
 	}
 	served := false
-	for _, f := range FactsAtInstr(adv[0]) {
+	for _, f := range adv[0].Facts {
 		if strings.HasPrefix(f.Atom.String(), "consume(") && f.Atom.Kind == TRUE {
 			served = true
 		}
